@@ -251,8 +251,9 @@ def native_car(rng):
     return bad
 
 
-def _stripe_case(rng, version, k_filter, fs=30000.0):
-    h = neuropixel.trace_header(version=version)
+def _stripe_case(rng, version, k_filter, fs=30000.0, labels=None):
+    h = neuropixel.trace_header(version=version) if version != "2.4x4" else neuropixel.trace_header(version=2.4, nshank=4)
+    version = 2 if version == "2.4x4" else version
     nc, ns = 384, 2000
     t = np.arange(ns) / fs
     # band-limited disturbance hitting all channels at the same physical instant, recorded with each channel's ADC delay
@@ -261,11 +262,15 @@ def _stripe_case(rng, version, k_filter, fs=30000.0):
     delay = h["sample_shift"] / fs
     # a channel whose ADC samples d seconds later records s(t + d)
     stripe = np.array([np.sin(2 * np.pi * f0 * (t + d)) * np.exp(-0.5 * ((t + d - t[ns // 2]) / 0.004) ** 2) for d in delay]) * 300e-6
-    y = V.destripe(stripe.copy().astype(np.float32), fs, h=h, neuropixel_version=version, k_filter=k_filter)
+    y = V.destripe(stripe.copy().astype(np.float32), fs, h=h, neuropixel_version=version, k_filter=k_filter, channel_labels=labels)
     sos = scipy.signal.butter(N=3, Wn=300 / fs * 2, btype="highpass", output="sos")
     ref = scipy.signal.sosfiltfilt(sos, stripe)
     sl = slice(200, ns - 200)
     att = 20 * np.log10(np.sqrt(np.mean(y[:, sl] ** 2)) / np.sqrt(np.mean(ref[:, sl] ** 2)) + 1e-30)
+    if labels is not None:
+        # worst channel, repaired ones included: an interpolated channel must carry the whole stripe for the referencing to remove it
+        per = 20 * np.log10(np.sqrt(np.mean(y[:, sl] ** 2, axis=1)) / np.sqrt(np.mean(ref[:, sl] ** 2, axis=1)) + 1e-30)
+        return float(per.max()), 1.0
     # local spike on 5 neighbouring channels
     spike = np.zeros((nc, ns))
     ch0 = int(rng.integers(40, 340))
@@ -279,7 +284,7 @@ def _stripe_case(rng, version, k_filter, fs=30000.0):
 
 
 @bounded(PROPERTY, "native_stripes", bound="synthetic band-limited stripes (800-3000 Hz) on 384 channels with NP1 / NP2 / NPultra delay tables x {k-filter, CAR}, 2 seeds (thorough 8): attenuation <= -40 dB, local spike keeps >= 90 % of its high-passed amplitude; "
-         "car per group on 4 groupings x {median, average}; AGC product on random data; label-3 rows excluded",
+         "car per group on 4 groupings x {median, average}; the same with 8 dead / noisy channels to repair on NP1 / NP2 / NP2.4 4-shank / NPultra (worst channel); AGC product on random data at scales 1 .. 1e-12 with a quiet stretch; label-3 rows excluded",
          clause="the dB / amplitude figures and the referencing laws natively")
 def b_native(B):
     rng = np.random.default_rng(B.seed)
@@ -290,10 +295,23 @@ def b_native(B):
             for s in range(2 if B.tier == "quick" else 8):
                 att, keep = _stripe_case(rng, version, kf)
                 B.case(("stripe", str(version), kf, s), att <= -40 and keep >= 0.9, detail={"attenuation_dB": round(float(att), 1), "spike_kept": round(float(keep), 3)})
-    x = rng.standard_normal((20, 500))
-    x[3] = 0
-    y, g = V.agc(x.copy(), wl=0.05, si=0.002)
-    B.case("agc_product", bool(np.allclose(y * g, x, atol=1e-12) and np.all(y[3] == 0)), detail="agc: data * gain != input")
+    # stripes with dead / noisy channels to repair, on sparse and dense geometries, with and without the spatial filter's own gain control
+    for version in (1, 2, "2.4x4", "NPultra"):
+        labels = np.zeros(384)
+        labels[rng.choice(np.arange(5, 379), 6, replace=False)] = [1, 1, 2, 1, 2, 1]
+        labels[[120, 121]] = 1
+        for kf in (False, True):
+            att, _ = _stripe_case(rng, version, kf, labels=labels)
+            B.case(("stripe_with_bad_channels", str(version), kf), att <= -40, detail={"worst_channel_attenuation_dB": round(float(att), 1)})
+    bad = []
+    for scale in (1.0, 1e-5, 1e-9, 1e-12):
+        x = rng.standard_normal((20, 500)) * scale
+        x[3] = 0
+        x[7, 100:400] = 0            # a quiet stretch inside a live channel
+        y, g = V.agc(x.copy(), wl=0.05, si=0.002)
+        if not (np.allclose(y * g, x, rtol=1e-9, atol=1e-12 * scale) and np.all(y[3] == 0)):
+            bad.append(("agc: data * gain != input", scale, float(np.abs(y * g - x).max() / scale)))
+    B.case("agc_product", not bad, detail=bad)
     h = neuropixel.trace_header(version=1)
     xs = rng.standard_normal((384, 800)).astype(np.float32)
     labels = np.zeros(384)
